@@ -183,6 +183,9 @@ func Normalize(dir, goarch string, tags []string) (map[string][]byte, []string) 
 		n.classify()
 		changed := n.inlineRound()
 		if !changed {
+			changed = n.methodValueRound()
+		}
+		if !changed {
 			changed = n.cleanupRound()
 		}
 		if !changed {
@@ -367,7 +370,8 @@ func (n *normalizer) inlinable(fn *types.Func, fd *ast.FuncDecl) bool {
 				if obj := n.info.Uses[y]; obj != nil {
 					if tn, isTN := obj.(*types.TypeName); isTN {
 						if _, isTP := tn.Type().(*types.TypeParam); isTP {
-							ok = false // body mentions a type parameter
+							// body mentions a type parameter: replaced by the instantiation's type argument at each site
+							_ = isTP
 						}
 					}
 				}
@@ -1030,6 +1034,13 @@ func (n *normalizer) simpleDefers(fd *ast.FuncDecl) bool {
 	return ok
 }
 
+func firstOrNil(args []ast.Expr) ast.Expr {
+	if len(args) == 0 {
+		return nil
+	}
+	return args[0]
+}
+
 func (n *normalizer) reject(s *site, code int) bool {
 	if os.Getenv("MQTTCHECK_DEBUG_NORM") != "" {
 		fmt.Fprintf(os.Stderr, "normalise: site %s at %s not inlined (reason #%d)\n", s.calleeName(), n.fset.Position(s.call.Pos()), code)
@@ -1334,6 +1345,8 @@ func (n *normalizer) sroaRound() bool {
 					case isId && l.Name == "_" && p.Tok == token.ASSIGN && isListParent(stmtParent[p], p):
 						dropStmts = append(dropStmts, p)
 					case isId && p.Tok == token.DEFINE && alias[n.info.Defs[l]]:
+					case isId && p.Tok == token.ASSIGN && alias[n.info.Uses[l]] && n.varAssign[n.info.Uses[l]] == p:
+						// `var r *T` … `r = x`: the single assignment that makes r a copy of the pointer
 					default:
 						okAll = false
 					}
@@ -1357,7 +1370,26 @@ func (n *normalizer) sroaRound() bool {
 		pfx := fmt.Sprintf("_sroa%d_", n.counter)
 		var gen, decl strings.Builder
 		okT := true
-		split := declStmt[obj] != nil && n.varAssign[obj] != nil // declared in one place, assigned in another
+		// the member declared outermost: the per-field variables are declared where it is declared
+		outer := obj
+		for a := range alias {
+			if a == outer || a.Parent() == nil || outer.Parent() == nil {
+				continue
+			}
+			if a.Parent() == outer.Parent() {
+				if a.Pos() < outer.Pos() {
+					outer = a
+				}
+			} else if a.Parent().Contains(outer.Pos()) && !outer.Parent().Contains(a.Pos()) {
+				outer = a
+			} else if a.Parent().Contains(outer.Parent().Pos()) && a.Parent() != outer.Parent() {
+				outer = a
+			}
+		}
+		if outer != obj && declStmt[outer] == nil {
+			continue
+		}
+		split := outer != obj || (declStmt[obj] != nil && n.varAssign[obj] != nil) // declared in one place, assigned in another
 		emit := func(fname string) {
 			var ft types.Type
 			for i := 0; i < st.NumFields(); i++ {
@@ -1409,7 +1441,7 @@ func (n *normalizer) sroaRound() bool {
 		line := n.fset.Position(ds.Pos()).Line
 		n.addEdit(filename, n.off(ds.Pos()), n.off(ds.End()), "\n"+n.pinLines(gen.String(), filename, line)+n.lineDirective(filename, n.fset.Position(ds.End()).Line))
 		if split {
-			d := declStmt[obj]
+			d := declStmt[outer]
 			dl := n.fset.Position(d.Pos()).Line
 			n.addEdit(filename, n.off(d.Pos()), n.off(d.End()), "\n"+n.pinLines(decl.String(), filename, dl)+n.lineDirective(filename, n.fset.Position(d.End()).Line))
 		}
@@ -1418,7 +1450,7 @@ func (n *normalizer) sroaRound() bool {
 			n.addEdit(fn2, n.off(d.Pos()), n.off(d.End()), "")
 		}
 		for a := range alias {
-			if d := declStmt[a]; d != nil && !(a == obj && split) {
+			if d := declStmt[a]; d != nil && !(a == outer && split) {
 				fn2 := n.fset.File(d.Pos()).Name()
 				n.addEdit(fn2, n.off(d.Pos()), n.off(d.End()), "")
 			}
@@ -1431,6 +1463,129 @@ func (n *normalizer) sroaRound() bool {
 		return true
 	}
 	return false
+}
+
+// methodValueRound: `f := x.M` (a method value held by a temporary that inlining introduced for a function-typed parameter)
+// followed by calls `f(args)`: the receiver is evaluated where the method value was taken (`r := x`, or `r := &x` when the
+// method needs the address) and each call becomes `r.M(args)` — what a bound method value does, spelled as a static call.
+func (n *normalizer) methodValueRound() bool {
+	defStmtOf := map[types.Object]ast.Stmt{}
+	parentOf := map[ast.Stmt]ast.Node{}
+	for _, f := range n.pp.Syntax {
+		var stack []ast.Node
+		ast.Inspect(f, func(x ast.Node) bool {
+			if x == nil {
+				stack = stack[:len(stack)-1]
+				return true
+			}
+			stack = append(stack, x)
+			var par ast.Node
+			if len(stack) >= 2 {
+				par = stack[len(stack)-2]
+			}
+			switch y := x.(type) {
+			case *ast.AssignStmt:
+				parentOf[y] = par
+				if y.Tok == token.DEFINE && len(y.Lhs) == 1 && len(y.Rhs) == 1 {
+					if id, ok := y.Lhs[0].(*ast.Ident); ok {
+						if obj := n.info.Defs[id]; obj != nil {
+							defStmtOf[obj] = y
+						}
+					}
+				}
+			case *ast.DeclStmt:
+				parentOf[y] = par
+				if gd, ok := y.Decl.(*ast.GenDecl); ok && gd.Tok == token.VAR && len(gd.Specs) == 1 {
+					if vs := gd.Specs[0].(*ast.ValueSpec); len(vs.Names) == 1 && len(vs.Values) == 1 {
+						if obj := n.info.Defs[vs.Names[0]]; obj != nil {
+							defStmtOf[obj] = y
+						}
+					}
+				}
+			}
+			return true
+		})
+	}
+	changed := false
+	bound := map[types.Object]string{} // root variable -> receiver temporary (created in this round)
+	for _, f := range n.pp.Syntax {
+		filename := n.fset.File(f.Pos()).Name()
+		ast.Inspect(f, func(x ast.Node) bool {
+			call, ok := x.(*ast.CallExpr)
+			if !ok {
+				return true
+			}
+			id, ok := ast.Unparen(call.Fun).(*ast.Ident)
+			if !ok {
+				return true
+			}
+			// follow single-assignment copies to a method value
+			viaInl := false
+			var root types.Object
+			var sel *ast.SelectorExpr
+			cur := id
+			for depth := 0; depth < 10 && cur != nil; depth++ {
+				v, ok := n.info.Uses[cur].(*types.Var)
+				if !ok || v.IsField() || v.Parent() == nil || v.Parent() == n.pp.Types.Scope() || n.varBad[v] {
+					return true
+				}
+				if strings.HasPrefix(cur.Name, "_inl") {
+					viaInl = true
+				}
+				e, ok := n.varDef[v]
+				if !ok {
+					return true
+				}
+				switch y := ast.Unparen(e).(type) {
+				case *ast.Ident:
+					cur = y
+					continue
+				case *ast.SelectorExpr:
+					if s := n.info.Selections[y]; s != nil && s.Kind() == types.MethodVal && len(s.Index()) == 1 {
+						root, sel = v, y
+					}
+				}
+				break
+			}
+			if sel == nil || !viaInl || !pureExpr(sel.X, n.info) {
+				return true
+			}
+			if _, isIface := n.info.TypeOf(sel.X).Underlying().(*types.Interface); isIface {
+				return true
+			}
+			ds := defStmtOf[root]
+			if ds == nil || !isListParent(parentOf[ds], ds) {
+				return true
+			}
+			rt, done := bound[root]
+			if !done {
+				n.counter++
+				rt = fmt.Sprintf("_inl%dmrecv", n.counter)
+				rx := n.src(filename, sel.X.Pos(), sel.X.End())
+				fn := n.info.Selections[sel].Obj().(*types.Func)
+				_, recvPtr := fn.Type().(*types.Signature).Recv().Type().(*types.Pointer)
+				_, argPtr := n.info.TypeOf(sel.X).Underlying().(*types.Pointer)
+				if recvPtr && !argPtr {
+					rx = "&(" + rx + ")"
+				}
+				dfile := n.fset.File(ds.Pos()).Name()
+				if n.overlaps(dfile, n.off(ds.Pos()), n.off(ds.Pos())) {
+					return true
+				}
+				line := n.fset.Position(ds.Pos()).Line
+				n.addEdit(dfile, n.off(ds.Pos()), n.off(ds.Pos()), "\n"+n.pinLines(fmt.Sprintf("%s := %s\n_ = %s\n", rt, rx, rt), dfile, line)+n.lineDirective(dfile, line))
+				bound[root] = rt
+			}
+			if n.overlaps(filename, n.off(call.Fun.Pos()), n.off(call.Fun.End())) {
+				return true
+			}
+			n.addEdit(filename, n.off(call.Fun.Pos()), n.off(call.Fun.End()), rt+"."+sel.Sel.Name)
+			n.notes = append(n.notes, fmt.Sprintf("call through method value %s bound to %s.%s made a direct method call", id.Name, types.ExprString(sel.X), sel.Sel.Name))
+			changed = true
+			return true
+		})
+	}
+	return changed
 }
 
 // cleanupRound: a function literal held only by inlining temporaries whose calls have all been inlined is replaced by nil,
@@ -1546,39 +1701,49 @@ func nextStmt(parent ast.Node, st ast.Stmt) ast.Stmt {
 // threadable: `lhs… := call` tested by `if X != nil BODY` (no else), X one of the targets, BODY free of labels and of
 // break statements that bind outside BODY.
 func (n *normalizer) threadable(as *ast.AssignStmt, iff *ast.IfStmt) *threadSpec {
-	if iff.Else != nil {
-		return nil
-	}
-	be, ok := iff.Cond.(*ast.BinaryExpr)
-	if !ok || be.Op != token.NEQ {
-		return nil
-	}
-	x, ok := be.X.(*ast.Ident)
-	if !ok {
-		return nil
-	}
-	if tv, ok := n.info.Types[be.Y]; !ok || !tv.IsNil() {
-		return nil
-	}
-	xobj := n.info.Uses[x]
-	if xobj == nil {
-		return nil
-	}
-	th := &threadSpec{errIdx: -1, cond: x.Name, body: iff.Body}
+	th := &threadSpec{errIdx: -1, body: iff.Body}
+	lhsObj := map[types.Object]int{}
 	for i, l := range as.Lhs {
 		id, ok := l.(*ast.Ident)
 		if !ok {
 			return nil
 		}
 		th.lhs = append(th.lhs, id.Name)
-		if id.Name != "_" && n.info.ObjectOf(id) == xobj {
-			th.errIdx = i
+		if id.Name != "_" {
+			if o := n.info.ObjectOf(id); o != nil {
+				lhsObj[o] = i
+			}
+		}
+	}
+	// simple form: `if X != nil BODY` without else, X one of the targets: a `return …, nil` of the callee skips the test
+	if be, ok := iff.Cond.(*ast.BinaryExpr); ok && be.Op == token.NEQ && iff.Else == nil {
+		if x, ok := be.X.(*ast.Ident); ok {
+			if tv, ok := n.info.Types[be.Y]; ok && tv.IsNil() {
+				if i, isT := lhsObj[n.info.Uses[x]]; isT {
+					th.errIdx = i
+					th.cond = x.Name
+				}
+			}
 		}
 	}
 	if th.errIdx < 0 {
-		return nil
+		// general form: any test that mentions a target (`if !ok {…}`, `if err != nil {…} else {…}`): the whole if
+		// statement is continued at every return of the callee
+		mentions := false
+		ast.Inspect(iff.Cond, func(y ast.Node) bool {
+			if id, ok := y.(*ast.Ident); ok {
+				if _, isT := lhsObj[n.info.Uses[id]]; isT {
+					mentions = true
+				}
+			}
+			return true
+		})
+		if !mentions {
+			return nil
+		}
+		th.whole = &ast.IfStmt{Cond: iff.Cond, Body: iff.Body, Else: iff.Else}
 	}
-	ok = true
+	ok := true
 	var walk func(node ast.Node, depth int)
 	walk = func(node ast.Node, depth int) {
 		ast.Inspect(node, func(y ast.Node) bool {
@@ -1604,6 +1769,9 @@ func (n *normalizer) threadable(as *ast.AssignStmt, iff *ast.IfStmt) *threadSpec
 		})
 	}
 	walk(iff.Body, 0)
+	if iff.Else != nil {
+		walk(iff.Else, 0)
+	}
 	if !ok {
 		return nil
 	}
@@ -1705,6 +1873,7 @@ type threadSpec struct {
 	errIdx int            // index of the tested result
 	cond   string         // name tested against nil
 	body   *ast.BlockStmt // BODY
+	whole  *ast.IfStmt    // general form: the complete if statement (without its init) to continue with
 }
 
 // bodyText prints the callee's body with its return statements rewritten.
@@ -1729,7 +1898,7 @@ func (n *normalizer) bodyText(fd *ast.FuncDecl, mode string, temps []string, res
 				cn.(*ast.Ident).Name = nm
 			}
 		case *ast.ReturnStmt:
-			if th != nil && len(x.Results) == len(th.lhs) && th.errIdx < len(x.Results) {
+			if th != nil && th.errIdx >= 0 && len(x.Results) == len(th.lhs) && th.errIdx < len(x.Results) {
 				if tv, ok := n.info.Types[x.Results[th.errIdx]]; ok && tv.IsNil() {
 					nilRet[cn.(*ast.ReturnStmt)] = true
 				}
@@ -1838,7 +2007,9 @@ func (n *normalizer) bodyText(fd *ast.FuncDecl, mode string, temps []string, res
 				repl = append(repl, &ast.AssignStmt{Lhs: idents(targets), Tok: token.ASSIGN, Rhs: rhs})
 			}
 			repl = append(repl, runDefers()...)
-			if th != nil && !nilRet[ret] {
+			if th != nil && th.whole != nil {
+				repl = append(repl, th.whole)
+			} else if th != nil && !nilRet[ret] {
 				repl = append(repl, &ast.IfStmt{
 					Cond: &ast.BinaryExpr{X: ast.NewIdent(th.cond), Op: token.NEQ, Y: ast.NewIdent("nil")},
 					Body: th.body,
@@ -1958,7 +2129,17 @@ func (n *normalizer) inlineSite(filename string, s *site) (done bool) {
 		if len(x.Results) == 1 && x.Results[0] == ast.Expr(call) && wrapIf == nil {
 			form = "return"
 		}
+	case *ast.GoStmt:
+		// go f(a)  ==  { t := a; go func() { p := t; body }() }  (operands are evaluated by the spawning goroutine)
+		if x.Call == call && listCtx {
+			form = "go"
+		}
+	case *ast.DeferStmt:
+		if x.Call == call && listCtx {
+			form = "defer"
+		}
 	}
+	spawn := form == "go" || form == "defer"
 	if selStmt != nil {
 		form = "nested"
 	}
@@ -2024,12 +2205,31 @@ func (n *normalizer) inlineSite(filename string, s *site) (done bool) {
 	pfx := fmt.Sprintf("_inl%d", n.counter)
 	var pre strings.Builder
 	rename := map[types.Object]string{}
+	if s.callee != nil {
+		if gsig, ok := s.callee.Type().(*types.Signature); ok && gsig.TypeParams().Len() > 0 {
+			inst, hasInst := n.info.Instances[s.id]
+			if !hasInst || inst.TypeArgs == nil || inst.TypeArgs.Len() != gsig.TypeParams().Len() {
+				return n.reject(s, 33)
+			}
+			for i := 0; i < gsig.TypeParams().Len(); i++ {
+				tt, ok := n.typeText(inst.TypeArgs.At(i), s.file, filename)
+				if !ok {
+					return n.reject(s, 34)
+				}
+				rename[gsig.TypeParams().At(i).Obj()] = tt
+			}
+		}
+	}
 	if th != nil {
 		used := map[string]bool{th.cond: true}
 		for _, l := range th.lhs {
 			used[l] = true
 		}
-		ast.Inspect(th.body, func(x ast.Node) bool {
+		var scan ast.Node = th.body
+		if th.whole != nil {
+			scan = th.whole
+		}
+		ast.Inspect(scan, func(x ast.Node) bool {
 			if id, ok := x.(*ast.Ident); ok {
 				used[id.Name] = true
 			}
@@ -2057,6 +2257,9 @@ func (n *normalizer) inlineSite(filename string, s *site) (done bool) {
 	}
 	// ---- result temporaries
 	tail := false
+	if spawn {
+		tail = true // the body becomes the body of a function literal: its returns stay returns
+	}
 	if form == "return" {
 		er := n.enclResults(s.encl)
 		if er != nil && er.Len() == nres {
@@ -2144,8 +2347,10 @@ func (n *normalizer) inlineSite(filename string, s *site) (done bool) {
 		return n.reject(s, 15)
 	}
 	args := call.Args
-	if len(args) == 1 && np > 1 {
-		return n.reject(s, 16) // f(g()) with a tuple-valued g
+	if tv, ok := n.info.Types[firstOrNil(args)]; ok && len(args) == 1 {
+		if _, isTuple := tv.Type.(*types.Tuple); isTuple {
+			return n.reject(s, 16) // f(g()) with a tuple-valued g
+		}
 	}
 	for i := 0; i < np; i++ {
 		pt := sig.Params().At(i).Type()
@@ -2210,7 +2415,23 @@ func (n *normalizer) inlineSite(filename string, s *site) (done bool) {
 		return n.reject(s, 22)
 	}
 	// ---- inner block: parameters, named results, body
-	pre.WriteString("{\n")
+	if spawn {
+		var rts []string
+		for i := 0; i < nres; i++ {
+			tt, ok := n.typeText(sig.Results().At(i).Type(), s.file, filename)
+			if !ok {
+				return n.reject(s, 32)
+			}
+			rts = append(rts, tt)
+		}
+		res := ""
+		if len(rts) > 0 {
+			res = " (" + strings.Join(rts, ", ") + ")"
+		}
+		fmt.Fprintf(&pre, "%s func()%s {\n", form, res)
+	} else {
+		pre.WriteString("{\n")
+	}
 	for _, b := range binds {
 		fmt.Fprintf(&pre, "%s := %s\n_ = %s\n", b.name, b.temp, b.name)
 	}
@@ -2252,7 +2473,11 @@ func (n *normalizer) inlineSite(filename string, s *site) (done bool) {
 	if usedLabel {
 		pre.WriteString("}\n")
 	}
-	pre.WriteString("}\n}\n")
+	if spawn {
+		pre.WriteString("}()\n}\n")
+	} else {
+		pre.WriteString("}\n}\n")
+	}
 	// ---- what replaces the statement
 	line := n.fset.Position(st.Pos()).Line
 	endLine := n.fset.Position(st.End()).Line
